@@ -26,7 +26,7 @@ TOL = 1e-9
 
 
 def gen_cases(tier, seed):
-    n = 300 if tier == "quick" else 6000
+    n = 300 if tier == "quick" else 60000
     return [{"seed": seed * 100003 + i} for i in range(n)]
 
 
